@@ -39,6 +39,29 @@ theorem afterLoad_getElem? {V : Type} (inv : List Entry) (saved fresh : List V) 
           simp only [List.getElem?_cons_succ] at he hs hf ⊢
           exact ih saved fresh j he hs hf
 
+/-- `Thin.Inventory.reload_sound` with the constructor hypothesis restricted to the entries that do NOT travel in the state
+    dict: a persisted entry is overwritten by `load_state_dict`, so nothing has to be assumed about its value in the
+    receiving instance (in particular it may have been trained away from its constructor value before saving) -/
+theorem reload_sound_np {V : Type} (inv : List Entry) (saved fresh : List V)
+    (hlen1 : saved.length = inv.length) (hlen2 : fresh.length = inv.length)
+    (hsafe : reloadSafe inv = true)
+    (hctor : ∀ i (h1 : i < inv.length), persisted inv[i] = false → (inv[i]).ctorDetermined = true →
+      saved[i]'(hlen1 ▸ h1) = fresh[i]'(hlen2 ▸ h1)) :
+    afterLoad inv saved fresh = saved := by
+  apply List.ext_getElem
+  · simp [afterLoad, hlen1, hlen2]
+  · intro i h1 h2
+    have hi : i < inv.length := by simpa [afterLoad, hlen1, hlen2] using h1
+    simp only [afterLoad, List.getElem_map, List.getElem_zip]
+    by_cases hp : persisted inv[i] = true
+    · simp [hp]
+    · have hall := List.all_eq_true.mp hsafe inv[i] (List.getElem_mem hi)
+      have hpf : persisted inv[i] = false := by simpa using hp
+      have hc : inv[i].ctorDetermined = true := by
+        rw [hpf] at hall; simpa using hall
+      simp only [hp]
+      exact (hctor i hi hpf hc).symm
+
 theorem reloadSafeU_spec (inv : List Entry) (used : List Bool) (h : reloadSafeU inv used = true)
     (i : Nat) (e : Entry) (he : inv[i]? = some e) (hu : used.getD i true = true) :
     persisted e = true ∨ e.ctorDetermined = true := by
